@@ -7,8 +7,8 @@
 //!        c12 run <cases-file>                       (prints one canonical line per case)
 //!
 //! Case lines (ops: tokens separated by ',', repetition `N*(a.b.c)`):
-//!   G id kv0 ops            group counter through the hooks; ops r<rand> | o | f | c
-//!   X id kv0 ops            group counter through the real Exchange::initiate_group; ops I<rand>o | I<rand>f | c
+//!   G id kv0 ops            group counter through the hooks; ops r<rand> | o | f | c | s<rand> (MsgCounterSyncRsp read)
+//!   X id kv0 ops            group counter through the real Exchange::initiate_group; ops I<rand>o | I<rand>f | c | s<rand>
 //!   E id kv0 ops            Events::push with a scripted KV; ops po | pf | c
 //!   K id epoch kv0 r0 ops   Icd check-in counter API; ops so | sf | po | pf | i<delta> | c<r>
 //!   GW/EW/KW ...            digest sweeps: for every k in a range, k uses, restart, `post` uses
@@ -342,6 +342,14 @@ impl GroupHook {
                     None => Ev::Yield(v as u64, self.kv()),
                 }
             }
+            b's' => {
+                // MsgCounterSyncRsp reads (and, the first time, seeds) the counter
+                RAND.store(tok[1..].parse::<u32>().unwrap(), Ordering::Relaxed);
+                self.sessions
+                    .verif_get_or_init_global_group_data_ctr(crypto)
+                    .unwrap();
+                Ev::Done
+            }
             b'o' | b'f' => match self.pend.take() {
                 None => Ev::Nop,
                 Some((v, b)) => {
@@ -514,6 +522,18 @@ impl GroupReal {
             if tok == "c" {
                 self.restart(&kv);
                 trace.push(Ev::Boot);
+                continue;
+            }
+            if tok.as_bytes()[0] == b's' {
+                RAND.store(tok[1..].parse::<u32>().unwrap(), Ordering::Relaxed);
+                self.matter
+                    .with_state(|state| {
+                        state
+                            .verif_sessions()
+                            .verif_get_or_init_global_group_data_ctr(crypto)
+                    })
+                    .unwrap();
+                trace.push(Ev::Done);
                 continue;
             }
             let n = tok.len();
@@ -955,6 +975,16 @@ fn generate(tier: &str, seed: u64) -> Gen {
             g.add("g_seed_exhaustive", "G", format!("- {}", q));
         }
     }
+    // -- the counter is also read (and seeded) by MsgCounterSyncRsp: sync ops in between
+    let sync_seqs = all_seqs(&["S", "r7", "o", "f", "c"], 4);
+    for &r in &[0u64, 5, G_MASK, G_MASK + 1] {
+        for s in ["-", "1000", "268435455"] {
+            for q in &sync_seqs {
+                let q = q.replace('S', &format!("s{}", r));
+                g.add("g_sync_exhaustive", "G", format!("{} {}", s, q));
+            }
+        }
+    }
     // -- every start value within 1100 of the wrap point and of 1, a fixed family of short schedules
     let fam = [
         "r0,o,c,r0,o,r0",
@@ -1051,6 +1081,10 @@ fn generate(tier: &str, seed: u64) -> Gen {
         for q in all_seqs(&["Io", "If", "c"], 4) {
             let q = q.replace("Io", &format!("I{}o", r)).replace("If", &format!("I{}f", r));
             g.add("x_seed_exhaustive", "X", format!("- {}", q));
+        }
+        for q in all_seqs(&["s9", "I0o", "I0f", "c"], 4) {
+            let q = q.replace("s9", &format!("s{}", r));
+            g.add("x_sync_exhaustive", "X", format!("- {}", q));
         }
     }
     let n_x = if thorough { 600 } else { 80 };
